@@ -112,7 +112,13 @@ func c12lCheck(env *c12lEnv, x *xsched.Exec) []vrt.Finding {
 }
 
 func TestVerifC12RuleListRace(t *testing.T) {
-	r := vrt.Start("C12")
+	// The unit also serves C13 (a refresh never leaves a list serving a mix of
+	// its previous and its new version): the driver then sets VERIF_PROP.
+	prop := "C12"
+	if p := os.Getenv("VERIF_PROP"); p != "" {
+		prop = p
+	}
+	r := vrt.Start(prop)
 	c12lDir = t.TempDir()
 	// Refreshes replace their cache files with fsync; a tmpfs directory keeps
 	// that cheap.  The files are real files either way.
